@@ -7,10 +7,12 @@ META = {
             "structure (recursive call = new frame, loop = same frame), the reader (parse / parse_list / parse_vector / "
             "parse_improper_list_tail), put_cell / maybe_put_cell, get_as_cell, the marker (mark / mark_vcell), "
             "equal? (equal / compare_pair / compare_vector), Display for Cell, the derived drop glue and the compiler's "
-            "core forms. Theorems: for every one of the 7 functions x 4 nesting directions (car, cdr, vector, quote "
-            "chain) the model's depth on the family nest dir n equals a closed form for EVERY n "
-            "(closedForm_eq_model); from it T19.b (the five loop directions — reader, get_as_cell, marker, equal?, "
-            "printer along cdr — never exceed 4 frames, for every length) and T19.u (every other (function, direction) "
+            "core forms. Theorems: for every one of the 7 functions x 6 directions (car, cdr = flat list of atoms, "
+            "vector, quote chain, cdr-of-pairs = flat list of n separately allocated shallow aggregates (1 . 2) / "
+            "#(1 2), cdr-dotted = flat list (1 ... 1 . 2) with an improper end) the model's depth on the family nest dir "
+            "n equals a closed form for EVERY n (closedForm_eq_model); from it T19.b (the fifteen loop cells — reader, "
+            "get_as_cell, marker, equal?, printer along the three flat directions — never exceed 6 frames, for every "
+            "length; equal? on two separately built lists of pairs: 5 frames, not 2n) and T19.u (every other (function, direction) "
             "pair needs at least n frames: no finite native stack suffices, so the property cannot hold there); plus "
             "the dotted-tail reader, nested applications and nested lambdas through the reader / compiler. The models "
             "are tied to the code by depth counters compiled into the real functions (hook verif::depth) compared "
@@ -19,7 +21,12 @@ META = {
             "scenario of the grid operation x direction x depth x {main thread 8 MiB, 2 MiB thread} x {release, "
             "debug}: exit status ok / error value / abort by stack overflow / slow. A child that completes also reports "
             "its counters, which must equal the closed forms at that depth.",
-    "note": "Closed theorems (for every n / every datum): closedForm_eq_model (28 function x direction closed forms), "
+    "note": "Closed theorems (for every n / every datum): closedForm_eq_model (42 function x direction closed forms), "
+            "T19_b_cdr_of_pairs / T19_b_cdr_dotted (the two flat directions added in round 4: constants 6/6/3/5/3 and "
+            "4/4/2/3/2 for reader/get_as_cell/marker/equal?/printer, n frames for drop glue and maybe_put_cell), "
+            "T19_b_shallow_lists (EVERY proper or dotted list of any length whose elements are car-nested <= k: "
+            "marker/get_as_cell/equal?/printer bounded by k alone — association lists, lists of lists, lists of "
+            "vectors), "
             "T19_b_cdr, T19_u_unbounded, bounded_iff_closedForm_le, the dotted-tail / nested-application reader and "
             "nested application / lambda compiler closed forms, T19_u_quote_evaluate, T19_b_mark_every_datum (marker "
             "depth between carNest+1 and 2 carNest+1 for EVERY datum, whatever its list lengths), "
@@ -29,12 +36,18 @@ META = {
             "The property at the level the model can state it (C19_depth: every function bounded in every direction) "
             "is FALSE on the pinned tree: C19_depth_partial is the proved part (explicit decidable hypothesis bounded f "
             "d = true: the five loop directions), C19_depth_fails / C19_depth_false are the proved negations (every "
-            "excluded pair; witness reader x car). Each aborting scenario is a known finding (44, none fixed: the "
+            "excluded pair; witness reader x car). Each aborting scenario is a known finding (50, none fixed: the "
             "recursion is systemic - reader, compiler, put_cell, get_as_cell, marker, equal?, printer, derived "
             "Drop/Clone - no few-line local repair makes a scenario pass) keyed by (operation, direction) with the "
             "smallest aborting depth per thread/profile, so a scenario that starts to abort at a smaller depth, or a "
-            "new (operation, direction), is still a violation. Passing on the whole grid: read/build/gc/equal along cdr "
-            "and non-tail recursion (incl. an error raised 10^5 frames deep). Carried only "
+            "new (operation, direction), is still a violation; the 6 findings of the directions cdr-of-pairs / "
+            "cdr-dotted (quote-evaluate: maybe_put_cell; drop and write: drop glue of the list / of the converted "
+            "datum, 2 MiB thread at 10^5 only) and write/cdr also name the stage in which the child dies, so an abort "
+            "of the same cell in another stage (get_as_cell, Cell::new_improper_list, fmt) is a violation. Passing on "
+            "the whole grid (must-pass cells, all depths x threads x profiles): read/build/gc/equal along cdr, "
+            "cdr-of-pairs and cdr-dotted (equal? on two separately built copies; the dotted list goes through "
+            "parse_improper_list_tail / Cell::new_improper_list) and non-tail recursion (incl. an error raised 10^5 "
+            "frames deep); write in the three flat directions completes everywhere except the drop-glue cells. Carried only "
             "by correspondence/exploration, not by a theorem: (a) that the Rust functions have the call structure of "
             "the models (hook counters vs model, exact, depths 10/100/1000; drop glue only through stack bytes because "
             "derived drop glue cannot carry a counter); (b) closure / continuation chains, macro-using nested "
@@ -66,6 +79,9 @@ THEOREMS = [P + t for t in [
     "T19_b_mark_every_datum",
     "T19_b_every_datum",
     "T19_b_flat_lists",
+    "T19_b_shallow_lists",
+    "T19_b_cdr_of_pairs",
+    "T19_b_cdr_dotted",
     "T19_u_drop_put_every_list",
     "C19_depth_partial",
     "C19_depth_fails",
@@ -82,7 +98,8 @@ def parse_grid(req):
 
 @predicate("c19_scenario")
 def c19_scenario(case, m):
-    """finding = one (operation, direction); cells = depth >= min_depth[thread/profile]; outcome abort/slow"""
+    """finding = one (operation, direction); cells = depth >= min_depth[thread/profile]; outcome abort/slow;
+    optional `stages`: the child must have died in one of these stages (last word of the observation)"""
     req = case.get("request", "")
     if not req.startswith("grid "):
         return False
@@ -91,6 +108,8 @@ def c19_scenario(case, m):
         return False
     impl = case.get("impl", "")
     if impl.split(" ")[0] not in m.get("outcomes", ["abort"]):
+        return False
+    if "stages" in m and impl.split(" ")[-1] not in m["stages"]:
         return False
     lim = m.get("min_depth", {}).get("%s/%s" % (g["thread"], g["profile"]))
     return lim is not None and g["n"] >= lim
@@ -133,9 +152,9 @@ class DropFit:
             slopes[d] = s
             if s <= 0 or any(abs((b - b0) - s * (f - f0)) > 64 for _, b, f in rest):
                 bad.append("drop %s: stack bytes not affine in the model's frames: %s" % (d, pts))
-        pair_dirs = [slopes[d] for d in ("car", "cdr", "quote") if d in slopes]
+        pair_dirs = [slopes[d] for d in ("car", "cdr", "quote", "cdr-of-pairs", "cdr-dotted") if d in slopes]
         if pair_dirs and max(pair_dirs) - min(pair_dirs) > 0.01 * max(pair_dirs):
-            bad.append("drop: bytes per modelled frame differ between car/cdr/quote: %s" % slopes)
+            bad.append("drop: bytes per modelled frame differ between the pair-spine directions: %s" % slopes)
         return bad
 
 
@@ -212,11 +231,13 @@ def run(ctx):
     return standard_run(
         ctx, MODULE, THEOREMS, ["depth"], streams,
         rule="measure: hook depth counters of the real functions vs the Lean depth models on the nested families "
-             "(car, cdr, dotted cdr, vector, quote chain, nested application / lambda / let, closure and continuation "
-             "chains) at depths 10, 100, 1000, in release and debug builds, exact equality (drop glue: stack bytes "
+             "(car, cdr, dotted cdr, vector, quote chain, cdr-of-pairs = list of fresh pairs / vectors, cdr-dotted = "
+             "flat list with an improper end, nested application / lambda / let, closure and continuation chains) at depths 10, 100, 1000, in release and debug builds, exact equality (drop glue: stack bytes "
              "affine in the model's frames; families without a model: fixed slope); grid: one child process per "
              "(operation, direction, depth in {10^3, 10^4[, 10^5 thorough]}, main 8 MiB / 2 MiB thread, release / "
-             "debug), 50 (operation, direction) pairs; observation = exit status + counters; non-trivial = depth >= "
+             "debug), 64 (operation, direction) pairs (directions car, cdr, cdr-of-pairs, cdr-dotted, vec, quote x read, "
+             "quote-evaluate, build, gc, equal on two separately built copies, write, drop; dot; closure / "
+             "continuation chains; non-tail recursion; nested expressions); observation = exit status + counters; non-trivial = depth >= "
              "100 for measure, any settled child for grid; distinct by request",
         trusted_extra=["child protocol of harness/src/bin/depth.rs (stage lines, RLIMIT_CORE 0, RLIMIT_STACK 8 MiB, "
                        "wall-clock limit per child)",
